@@ -433,8 +433,21 @@ func Run(args []string) error {
 	fs := flag.NewFlagSet("aggsender", flag.ContinueOnError)
 	in := fs.String("in", "", "behaviours json")
 	out := fs.String("out", "", "trace ndjson")
+	pw := fs.String("persistwrite", "", "write the aggsender database fixture (and its answers) with the current code")
+	pc := fs.String("persistcheck", "", "open a copy of the aggsender database fixture with the code under test and record its answers")
 	if err := fs.Parse(args); err != nil {
 		return err
+	}
+	if *pw != "" {
+		return persistWrite(*pw)
+	}
+	if *pc != "" {
+		w, err := tr.NewW(*out)
+		if err != nil {
+			return err
+		}
+		defer w.Close()
+		return persistCheck(w, *pc)
 	}
 	sqlfault.BusyTimeout(25) // a syncer write in the middle of one of the node's reads waits 25 ms for the lock, not 5 s
 	var bs []Behaviour
